@@ -109,8 +109,17 @@ def run(ctx):
     ctx.cov["rule"] = ("every crash point of the strace-recorded write programme (before each syscall, after every byte of each write) "
                        "after K earlier successful updates; non-trivial = crash inside the write of the new configuration file")
     # ---- M: design pairs; as-built must fail
-    for cfg in ("MC_atomic_newest.cfg", "MC_direct_newestValid.cfg", "MC_atomic_newestValid.cfg"):
+    good = ["MC_direct_newestValid.cfg", "MC2_direct_newestValid_1.cfg"]
+    if not ctx.quick:
+        good += ["MC_atomic_newest.cfg", "MC_atomic_newestValid.cfg", "MC2_direct_newestValid_2.cfg",
+                 "MC2_atomic_newest_1.cfg", "MC2_atomic_newest_2.cfg", "MC2_atomic_newestValid_1.cfg", "MC2_atomic_newestValid_2.cfg"]
+    for cfg in good:
         ctx.tlc_mc("AutoconfCache", "AutoconfCache.tla", cfg, timeout=300, deadlock=False, workers=2)
+    if not ctx.quick:
+        c2 = ctx.tlc_mc("AutoconfCache", "AutoconfCache.tla", "MC2_direct_newest_2.cfg", timeout=300, deadlock=False,
+                        workers=2, expect_violation=True)
+        if c2["violated"] != "ReadIsValidated":
+            ctx.broken("control MC2_direct_newest_2 should violate ReadIsValidated")
     ctl = ctx.tlc_mc("AutoconfCache", "AutoconfCache.tla", "MC_direct_newest.cfg", timeout=300, deadlock=False,
                      workers=2, expect_violation=True)
     if ctl["violated"] != "ReadIsValidated":
